@@ -400,12 +400,18 @@ Definition stream_max_memory : Z := nth 3 mpfl_ints 0.
 Record scfg := { sc_stream : bool;       (* Server.StreamRequestBody *)
                  sc_preparse : bool }.   (* !Server.DisablePreParseMultipartForm *)
 
-(* what arrives: is it multipart/form-data with a usable boundary and no Content-Encoding, is
+(* what arrives: is it multipart/form-data with a usable boundary, is
    Content-Length > 0, the sizes of its file parts in order, does the body parse *)
 Record reqd := { rq_multipart : bool; rq_clpos : bool; rq_files : list Z; rq_wellformed : bool;
                  rq_len : Z;       (* length of the body *)
                  rq_close : Z;     (* length of its closing delimiter CRLF--boundary--CRLF *)
-                 rq_short : bool }. (* Content-Length promises more bytes than the peer sends (it closes after the body) *)
+                 rq_short : bool;  (* Content-Length promises more bytes than the peer sends (it closes after the body) *)
+                 rq_enc : Z }.     (* Content-Encoding: 0 none, 1 gzip, 2 anything else; rq_len / rq_files describe the decoded body *)
+
+(* the pre-parse on read needs a boundary and NO Content-Encoding; MultipartFormWithLimit decodes gzip itself
+   (gzip.NewReader over the stream / gunzipData) and refuses every other Content-Encoding *)
+Definition preparse_ok (d : reqd) : bool := rq_multipart d && (rq_enc d =? 0).
+Definition parsable (d : reqd) : bool := rq_multipart d && negb (rq_enc d =? 2).
 
 Record rstate := {
   r_desc : reqd;
@@ -476,7 +482,7 @@ Definition form_with_limit (l : Z) (r : rstate) (s : cstate) : option cstate :=
   match r_form r with
   | Some _ => Some s                                                         (* already parsed: returned as is *)
   | None =>
-      if negb (rq_multipart (r_desc r)) then Some s                          (* ErrNoMultipartForm *)
+      if negb (parsable (r_desc r)) then Some s                              (* ErrNoMultipartForm / unsupported content-encoding *)
       else if r_stream r then
         (* req.bodyStream != nil: mr.ReadForm(8*1024) over the stream, behind a LimitedReader when l > 0 *)
         if r_consumed r then Some s                                          (* nothing left to read: error *)
@@ -512,7 +518,7 @@ Definition form_with_limit (l : Z) (r : rstate) (s : cstate) : option cstate :=
 Definition cstep (c : scfg) (s : cstate) (e : cevent) : option cstate :=
   match e, c_ph s with
   | VDispatch d, CIdle =>
-      if sc_preparse c && rq_clpos d && rq_multipart d then
+      if sc_preparse c && rq_clpos d && preparse_ok d then
         (* ContinueReadBody[Stream]: readMultipartForm(r, boundary, contentLength, defaultMaxInMemoryFileSize) *)
         match rmf defaultMaxInMemoryFileSize (rq_files d) (rq_wellformed d) (rq_short d) (c_disk s) with
         | (Some fs, disk') =>
@@ -529,7 +535,7 @@ Definition cstep (c : scfg) (s : cstate) (e : cevent) : option cstate :=
   | VOp OForm, CHandling r => form_with_limit 0 r s
   | VOp (OFormLimit l), CHandling r => form_with_limit l r s
   | VOp ODrop, CHandling r =>
-      Some (Build_cstate (CHandling (Build_rstate (Build_reqd false false [] false 0 0 false) None false false))
+      Some (Build_cstate (CHandling (Build_rstate (Build_reqd false false [] false 0 0 false 0) None false false))
                          (reset_request r (c_disk s)) (c_detached s))
   | VOp ORemove, CHandling r =>
       Some (Build_cstate (CHandling (Build_rstate (r_desc r) None (r_stream r) (r_consumed r)))
